@@ -27,6 +27,7 @@ def Ledger.zero : Ledger := {}
 structure SSt where
   limit : Nat                       -- effective max_memory
   eo : Nat := 8                     -- sizeof(struct entry)
+  klen : Nat := 6                   -- length of the keys the history adds (the harness's keys: "k%05d", optionally padded)
   failKey : Option Nat := none      -- the merge callback fails for this key
   pooled : Bool := false
   keys : List Nat := []             -- keys of the current batch
@@ -136,7 +137,7 @@ def flushChunk (fixF6 fixF10 : Bool) (ss : SSt) : SSt :=
 
 def sorterAdd (fixF6 fixF10 : Bool) (ss : SSt) (key vlen : Nat) : Bool × SSt :=
   if ss.iterating then (false, ss) else
-  let ss1 := { ss with keys := ss.keys ++ [key], entryBytes := ss.entryBytes + ss.eo + 6 + vlen }
+  let ss1 := { ss with keys := ss.keys ++ [key], entryBytes := ss.entryBytes + ss.eo + ss.klen + vlen }
   if ss1.entryBytes + 8 * ss1.keys.length ≥ ss1.limit then
     let ss2 := flushChunk fixF6 fixF10 ss1
     (ss.pooled || !(ss2.failed && !ss1.failed), ss2)       -- a pooled dispatch always reports success
